@@ -159,6 +159,9 @@ pub fn hostile_texts() -> Vec<String> {
         " ", "\n", "\r\n", "\t x \t", " x", "x ", "x\n", "\u{a0}x\u{a0}", "\u{3000}x", "\u{feff}x", "x\u{feff}", "\0", "x\0", "\0x", "a\u{1}b\u{7f}",
         "\u{200b}x", "x\u{200d}", "\u{202e}abc", "\u{e9}", "e\u{301}", "\u{212b}", "\u{c5}", "\u{130}", "\u{df}", "SS", "ss", "\u{1c5}", "\u{ff21}\u{ff22}", "AB", "ab",
         "\u{fffd}", "a\u{fffd}b", "'\"\\", "%00", "%2E", "a+b/c=", "a b", "a%20b", "../x", "x/../y", "null", "true", "0", "-0", "1e3", "[]", "{}", "\"x\"", "\\u0041", "A",
+        // JSON documents (footers and assertions usually are): the same document can be spelled in many ways, a
+        // token is bound to the text
+        JSON_DOC, "{ \"kid\" : \"k1\", \"x\": \"\u{e9}\" }", "[1,2]", "{\"a\":1,\"a\":2}",
     ]
     .iter()
     .map(|s| s.to_string())
@@ -177,11 +180,44 @@ pub fn conflation_variants(s: &str) -> Vec<String> {
             v.push(a.to_string());
         }
     }
+    // other spellings of the same JSON document: member order, white space, escapes, a repeated member
+    // (first or last one wins, depending on the reader), number forms
+    if s == JSON_DOC {
+        for alt in [
+            "{\"x\":\"\u{e9}\",\"kid\":\"k1\"}",
+            "{ \"kid\" : \"k1\", \"x\": \"\u{e9}\" }",
+            "{\"kid\":\"k1\",\"x\":\"\\u00e9\"}",
+            "{\"\\u006bid\":\"k1\",\"x\":\"\u{e9}\"}",
+            "{\"kid\":\"evil\",\"kid\":\"k1\",\"x\":\"\u{e9}\"}",
+            "{\"kid\":\"k1\",\"x\":\"\u{e9}\",\"kid\":\"k1\"}",
+            "{\"kid\":\"k1\",\"x\":\"\u{e9}\",\"kid\":\"evil\"}",
+            "{\"kid\":\"k1\",\"x\":\"\u{e9}\"}\n",
+            "{\"kid\":\"k1\",\"x\":\"\u{e9}\",}",
+        ] {
+            v.push(alt.to_string());
+        }
+    }
+    if s == "{\"a\":1,\"a\":2}" {
+        v.push("{\"a\":2}".to_string());
+        v.push("{\"a\":1}".to_string());
+        v.push("{\"a\":2,\"a\":1}".to_string());
+    }
+    if s == "[1,2]" {
+        v.push("[1, 2]".to_string());
+        v.push("[1.0,2]".to_string());
+        v.push("[2,1]".to_string());
+    }
+    if s == "{ \"kid\" : \"k1\", \"x\": \"\u{e9}\" }" {
+        v.push(JSON_DOC.to_string());
+        v.push("{\"x\":\"\u{e9}\",\"kid\":\"k1\"}".to_string());
+    }
     v.retain(|x| x != s);
     v.sort();
     v.dedup();
     v
 }
+/// a two-member JSON object in compact, key-sorted form
+pub const JSON_DOC: &str = "{\"kid\":\"k1\",\"x\":\"\u{e9}\"}";
 
 #[derive(Clone, Debug)]
 pub struct KeyMat {
